@@ -325,6 +325,9 @@ func (r *Report) Finish(verifDir string) int {
 	if m := os.Getenv("VERIF_MUTANT"); m != "" { // self-test runs never touch the real evidence
 		outDir = filepath.Join(verifDir, ".build", "mutant-"+m)
 	}
+	if o := os.Getenv("VERIF_OUT"); o != "" { // runs against a deliberately changed tree (seedeval.sh) write elsewhere too
+		outDir = o
+	}
 	os.MkdirAll(filepath.Join(outDir, "replays"), 0o755)
 	for _, fp := range fps {
 		v := r.Violations[fp]
